@@ -300,6 +300,7 @@ func c12Run(t *engine.T, shard string) {
 		c12Indexed(t)
 		c12ErrorShapes(t)
 		c12Refresh(t)
+		c12Blocks(t)
 		return
 	}
 	if shard == "poly" {
@@ -743,3 +744,98 @@ type c12Holder struct {
 }
 
 func (h c12Holder) Find(s string) (*Person, error) { return h.f(s) }
+
+// c12Blocks: several helper calls with blocks inside one statement - every call's helper context carries that
+// call's own whole block, whatever the blocks of the calls evaluated before it did (ended in break / continue, failed
+// softly, were never run).
+func c12Blocks(t *engine.T) {
+	for _, ctl := range []string{"", "continue", "break"} {
+		for _, second := range []struct{ body, text string }{{`b<%= x %>c`, "b%dc"}, {`<% let q9 = x %>b<%= q9 %>c<%= q9 %>`, "b%dc%d"}, {`b`, "b"}, {`<%= if (true) { %>b<% } %><%= x %>`, "b%d"}} {
+			for _, h2 := range []string{"wrap", "wrapi", "wrapw", "wrapo"} {
+				for _, form := range []string{"pair", "array", "three", "nested", "infix"} {
+					ctl, second, h2, form := ctl, second, h2, form
+					first := `a<% ` + ctl + ` %>z`
+					firstText := "a"
+					if ctl == "" {
+						first, firstText = `az`, "az"
+					}
+					call2 := h2 + `() { %>` + second.body + `<% }`
+					if h2 == "wrapo" {
+						call2 = h2 + `({"k": 1}) { %>` + second.body + `<% }`
+					}
+					var stmt string
+					switch form {
+					case "pair":
+						stmt = `<%= pair(wrap() { %>` + first + `<% }, ` + call2 + `) %>`
+					case "array":
+						stmt = `<%= [wrap() { %>` + first + `<% }, "+", ` + call2 + `] %>`
+					case "three":
+						stmt = `<%= pair(wrap() { %>` + first + `<% }, pair(` + call2 + `, ` + call2 + `)) %>`
+					case "nested":
+						stmt = `<%= pair(wrap() { %><%= wrap() { %>` + first + `<% } %><% }, ` + call2 + `) %>`
+					case "infix":
+						stmt = `<%= "" + wrap() { %>` + first + `<% } + "+" + ` + call2 + ` %>`
+					}
+					src := `<%= for (x) in xs { %>` + stmt + `;<% } %>`
+					t.Case("blocks "+q(src), true, func() (string, *engine.Fail) {
+						var got []string
+						ctx := plush.NewContext()
+						ctx.Set("xs", []int{1, 2})
+						rec := func(s string, err error) (template.HTML, error) { got = append(got, s); return template.HTML(s), err }
+						ctx.Set("wrap", func(help plush.HelperContext) (template.HTML, error) { return rec(help.Block()) })
+						ctx.Set("wrapi", func(opts map[string]interface{}, help hctx.HelperContext) (template.HTML, error) {
+							return rec(help.Block())
+						})
+						ctx.Set("wrapw", func(help plush.HelperContext) (template.HTML, error) { return rec(help.BlockWith(help.New())) })
+						ctx.Set("wrapo", func(opts map[string]interface{}, help plush.HelperContext) (template.HTML, error) {
+							if opts["k"] != 1 {
+								return "", fmt.Errorf("options map not passed: %v", opts)
+							}
+							return rec(help.Block())
+						})
+						ctx.Set("pair", func(a, b template.HTML) template.HTML { return a + "+" + b })
+						out, err := Render(src, ctx)
+						if err != nil {
+							return "", engine.Failf("block", "unexpected error %v", err)
+						}
+						iters := 2
+						if ctl == "break" {
+							iters = 1
+						}
+						var want []string
+						var wout strings.Builder
+						for x := 1; x <= iters; x++ {
+							b2 := second.text
+							if n := strings.Count(b2, "%d"); n == 1 {
+								b2 = fmt.Sprintf(b2, x)
+							} else if n == 2 {
+								b2 = fmt.Sprintf(b2, x, x)
+							}
+							switch form {
+							case "three":
+								want = append(want, firstText, b2, b2)
+								wout.WriteString(firstText + "+" + b2 + "+" + b2)
+							case "nested":
+								want = append(want, firstText, firstText, b2)
+								wout.WriteString(firstText + "+" + b2)
+							default:
+								want = append(want, firstText, b2)
+								wout.WriteString(firstText + "+" + b2)
+							}
+							if ctl == "" {
+								wout.WriteString(";")
+							}
+						}
+						if strings.Join(got, "|") != strings.Join(want, "|") {
+							return "", engine.Failf("block", "the helpers' blocks rendered %q, expected %q (output %q)", got, want, out)
+						}
+						if out != wout.String() {
+							return "", engine.Failf("block", "expected output %q, got %q", wout.String(), out)
+						}
+						return "blocks", nil
+					})
+				}
+			}
+		}
+	}
+}
